@@ -128,7 +128,14 @@ def part(harness_specs, prop, label_of=None):
                      'checks': r['checks'], 'failed_checks': r['failed'], 'seconds': r['secs'],
                      'backend': 'kani/cbmc+cadical', 'stubs': r.get('stubs', []), 'covers': r.get('covers')}
             if st in ('timeout', 'missing', 'running'):
-                raise Undecided('kani-%s' % st, '%s did not finish (%.0fs)' % (h['name'], wall))
+                # not decided by Kani on this code: never a violation by itself, but the witness search on the
+                # real code may still confirm one (check.py: needs_witness)
+                res['violations'].append({
+                    'unit': 'kani', 'label': h['label'], 'fn': ','.join(h.get('functions', [])),
+                    'message': 'Kani did not finish %s (%s after %.0fs)' % (h['name'], st, wall),
+                    'clause': [h.get('clause', '')], 'engine': 'kani', 'verifier_output': '',
+                    'needs_witness': ['kani %s on %s' % (st, h['name'])]})
+                continue
             if r.get('covers') and r['covers'][0] < r['covers'][1]:
                 raise Undecided('kani-vacuous', '%s: only %d of %d cover properties satisfiable'
                                 % (h['name'], r['covers'][0], r['covers'][1]))
